@@ -252,7 +252,7 @@ def _api_layer(case, log, V, probe):
                     for key, ids in truth.items():
                         parents = [g for g in got_valid if cls_of.get(g[0]) == key]
                         if len(parents) != 1 or len(parents[0]) != min(cap, len(ids)) or merged[key] != ids:
-                            V('partition-differs-from-truth', 'api/cap', truth=sorted(ids)[:8], parents=parents[:3], cap=cap, **ctx)
+                            V('partition-differs-from-truth', 'api/cap', truth=sorted(ids)[:8], parents=parents[:3], **ctx)
                             break
     return n_eval
 
